@@ -24,7 +24,7 @@ RULE = (
     "application that changed a string whose original parses; distinct by (operator, text)."
 )
 ASSUMPTIONS = ["any exception type counts as rejection", "wall clock is only an outer watchdog (inconclusive), the termination verdict is the line budget"]
-FLOORS = {"quick": {"operator_applications": 1200, "mutants_parsed": 20000, "distinct_nontrivial": 800}, "thorough": {"operator_applications": 30000, "mutants_parsed": 500000}}
+FLOORS = {"quick": {"operator_applications": 900, "mutants_parsed": 20000, "distinct_nontrivial": 800}, "thorough": {"operator_applications": 20000, "mutants_parsed": 500000}}
 ALPHABET = list("CNOcn()[]{}$<>|.,;=#-0123456789 %") + ["Cl", "Br", "[H]", "gauss(", ".|", "|"]
 
 
